@@ -85,6 +85,7 @@ func cmdEngineTraces(args []string) {
 	calls := fs.Int("calls", 1, "maximum number of calls on one instance")
 	cancel := fs.Bool("cancel", false, "sweep cancellation points")
 	flagP := fs.Float64("flagp", 0.0, "probability of ReturnErrOnFailedRuleEvaluation")
+	shadowP := fs.Float64("shadow", 0.0, "probability that the first call is repeated without listeners on a fresh instance")
 	maxcyc := fs.Int("maxcycle", 8, "upper bound of MaxCycle")
 	listeners := fs.Int("listeners", 1, "maximum number of listeners")
 	idBase := fs.Int("idbase", 0, "first trace id")
@@ -130,6 +131,9 @@ func cmdEngineTraces(args []string) {
 			cc := CallCfg{Mode: "exec", World: g.World(), Max: uint64(r.Intn(*maxcyc + 1)), Flag: r.Float64() < *flagP, CancelAt: -1, UseCtx: r.Intn(2) == 0}
 			if *mode == "fetch" || (*mode == "mixed" && r.Intn(3) == 0) {
 				cc.Mode = "fetch"
+			}
+			if k == 0 && r.Float64() < *shadowP {
+				cc.Shadow = true
 			}
 			c.Calls = append(c.Calls, cc)
 		}
